@@ -9,6 +9,7 @@ package main
 import (
 	"fmt"
 	"go/constant"
+	"go/types"
 
 	"golang.org/x/tools/go/ssa"
 )
@@ -62,6 +63,56 @@ func (m *Model) RunLiteral(s *Sink, rule string) {
 	}
 	if n < 2 {
 		s.Undecided(rule, "parser|literal conversions", "-", "expected the integer and the float literal conversion (strconv.ParseInt / ParseFloat) in the parser, found %d", n)
+	}
+	// (c) between the tokens of an expression, blanks, tabs, line feeds and carriage returns are skipped and nothing
+	// else is: skipWhitespace is evaluated for every byte value as the current character
+	if sw := m.Method("lexer", "Lexer", "skipWhitespace"); sw != nil {
+		lexT := m.namedType("lexer", "Lexer")
+		rc := m.Method("lexer", "Lexer", "readChar")
+		fChar := -1
+		if lexT != nil {
+			st := lexT.Underlying().(*types.Struct)
+			for i := 0; i < st.NumFields(); i++ {
+				if canonFieldName(lexT, i, st.Field(i).Name()) == "char" {
+					fChar = i
+				}
+			}
+		}
+		want := map[int]bool{' ': true, '\t': true, '\n': true, '\r': true}
+		var wrong []string
+		undecided := ""
+		for bv := 0; bv < 256 && fChar >= 0 && rc != nil; bv++ {
+			lx := &iStruct{typ: lexT, fields: map[int]any{fChar: constant.MakeInt64(int64(bv))}}
+			reads := 0
+			ip := &Interp{m: m, useGlobals: true}
+			ip.call = func(c *ssa.Call, args []any) (any, bool) {
+				if c.Call.StaticCallee() == rc {
+					reads++
+					lx.fields[fChar] = constant.MakeInt64('x') // what follows is not a blank
+					return nil, true
+				}
+				return nil, false
+			}
+			ip.Run(sw, []any{lx})
+			if ip.stuck != "" {
+				undecided = fmt.Sprintf("byte %q: %s", rune(bv), ip.stuck)
+				break
+			}
+			if (reads > 0) != want[bv] {
+				wrong = append(wrong, fmt.Sprintf("%q", rune(bv)))
+			}
+		}
+		key := fnKey(sw) + "|exactly blank, tab, line feed and carriage return separate the tokens of an expression"
+		switch {
+		case fChar < 0 || rc == nil:
+			s.Undecided(rule, key, m.Pos(sw.Pos()), "lexer.Lexer.char / readChar not found")
+		case undecided != "":
+			s.Undecided(rule, key, m.Pos(sw.Pos()), "skipWhitespace could not be evaluated (%s)", undecided)
+		case len(wrong) > 0:
+			s.Violation(rule, key, m.Pos(sw.Pos()), "skipWhitespace treats the byte(s) %v differently from the whitespace set {' ', '\\t', '\\n', '\\r'}: an expression laid out with such a character between its tokens (CRLF line ends!) is lexed differently from the same expression on one line", wrong)
+		default:
+			s.OK(rule, key, m.Pos(sw.Pos()), "case evaluation for all 256 byte values: exactly the four whitespace bytes are read over")
+		}
 	}
 	// (b) the number reader
 	rn := m.Method("lexer", "Lexer", "readNumber")
